@@ -65,7 +65,7 @@ def materialise(job, cap=6, with_key=False, pre=()):
     if list(seq[:1]) == ['ALIGNED']:
         return aligned_model(sd, total=int(seq[1]), headers=tuple(h))
     if list(seq[:1]) == ['GIANT']:
-        return giant_model(sd, rows=int(seq[1]), headers=tuple(h))
+        return giant_model(sd, rows=int(seq[1]), headers=tuple(h), comments=(list(seq[2:3]) != ['nocomments']))
     return X.seq_model(h, seq, sd, cap=cap, pre=pre, with_key=with_key)
 
 
@@ -181,13 +181,13 @@ def hist_of(m):
     return hist[:-1] if m.width() == 0 and hist and not isinstance(hist[-1], tuple) else hist
 
 
-def giant_model(seed, rows=1500, headers=('**kern', '**kern', '**text', '**kern')):
+def giant_model(seed, rows=1500, headers=('**kern', '**kern', '**text', '**kern'), comments=True):
     """ONE very large document: ~1 900 lines, 350 numbered measures, > 4 200 DIFFERENT kern cells (then the earliest ones again), > 64 KiB of text with
     multi-byte lyrics, a split/join cycle every 97 rows, clef changes, global comments.  Thresholds it crosses: 64/100/128/256/257/512/990/1000/1024 rows, stages
     or measures; 256/512/1024/2048/4096 distinct encodings; 64 KiB; recursion depth 1 000."""
     from .model import Model
     h = list(headers)
-    m = Model(h, pre=('!!!COM: Giant', '!!!OTL: beyond every bound'))
+    m = Model(h, pre=('!!!COM: Giant', '!!!OTL: beyond every bound') if comments else ())
     kcols = [i for i, t in enumerate(h) if t == '**kern']
     clefs = ['*clefG2', '*clefF4', '*clefC3', '*clefGv2', '*clefC4', '*clefF3']
     m.add([A.V(clefs[(i + seed) % len(clefs)], 'CLEF') if i in kcols else A.NULL_I for i in range(len(h))])
@@ -209,13 +209,16 @@ def giant_model(seed, rows=1500, headers=('**kern', '**kern', '**text', '**kern'
         w = m.width()
         if r % 4 == 0:
             m.add([A.V(f'={r // 4 + 1}', 'BARLINES', '=')] * w)
-        if r % 97 == 50:
+        if r % 97 == 50 and w >= len(h) - 1 and w <= len(h):
             m.add([A.SPLIT if i == 0 else A.NULL_I for i in range(w)])
             w = m.width()
-        if r % 97 == 60 and w > len(h):
+        if r % 97 == 60 and len(set(m.spines()[:2])) == 1 and w >= 2:
             m.add([A.JOIN if i in (0, 1) else A.NULL_I for i in range(w)])
             w = m.width()
-        if r % 211 == 100:
+        if r == rows - 150 and w == len(h) == 2:
+            m.add([A.NULL_I, A.TERM])       # two kern spines: the second one ends early, the first goes on for 150 rows
+            w = m.width()
+        if r % 211 == 100 and comments:
             m.add_g(f'!!!ONB: comment {r}')
         if r % 173 == 90:
             types = m.types()
@@ -232,7 +235,7 @@ def giant_model(seed, rows=1500, headers=('**kern', '**kern', '**text', '**kern'
             first_rows.append(row)
         m.add(row)
     # the earliest rows once more: whatever was remembered about them (and evicted since) is asked for again
-    if m.width() == len(h):
+    if m.width() == len(h) and len(h) != 2:
         m.add([A.V(clefs[(i + seed) % len(clefs)], 'CLEF') if i in kcols else A.NULL_I for i in range(len(h))])     # the clefs of the beginning again
         for row in first_rows:
             m.add(row)
